@@ -278,37 +278,21 @@ Definition conc_aobs (o : cobs) (q : areq) (b : abody * bool) : aobs :=
                                 | None => []
                                 end |} |}.
 
-(* signature of known finding C19-K1: Okta, an EARLIER request of the batch has the same access token
-   (= single-flight key) and another refresh token (= the token Okta revokes) *)
-Definition k1_signature (p : provider) (earlier : list areq) (q : areq) : bool :=
-  match p, session_of q with
-  | POkta, Some s =>
-      existsb (fun q' => match session_of q' with
-                         | Some s' => str_eqb (as_access s') (as_access s) && negb (str_eqb (as_refresh s') (as_refresh s))
-                         | None => false end) earlier
-  | _, _ => false
-  end.
-
-(* per request: 0 = the clauses hold, 1 = they fail with the signature of K1, 2 = they fail otherwise *)
-Fixpoint conc_verdicts (mac : str -> str -> str) (o : cobs) (earlier : list areq) (qs : list areq) (bs : list (abody * bool)) : list N :=
-  match qs, bs with
-  | q :: qs', b :: bs' =>
-      (if auth_holds mac (conc_aobs o q b) then 0
-       else if k1_signature (co_provider o) earlier q then 1 else 2) :: conc_verdicts mac o (earlier ++ [q]) qs' bs'
-  | _, _ => []
-  end.
+(* per request: do the property's clauses hold of the (attributed) observation.  Historical: until the
+   repair 7e98525 a failure with the signature of finding C19-K1 (Okta, an earlier request of the batch
+   with the same access token and another refresh token) was attributed to it; now every failure counts. *)
+Definition conc_holds (mac : str -> str -> str) (o : cobs) : bool :=
+  all2 (fun q b => auth_holds mac (conc_aobs o q b)) (co_reqs o) (co_bodies o).
 
 (* ---- histories --------------------------------------------------------------------------------- *)
 Record hstate := {
   h_last : option pobs;
   h_revoked : list str;               (* IdP: tokens revoked *)
   h_signed_out : list (str * str);    (* (access, refresh) of sessions whose authenticator cookie a POST response cleared *)
-  h_k1 : list (str * str);            (* of those, the ones attributed to known finding K1 *)
-  h_mismatch : bool; h_holds : bool;  (* h_holds: no UNATTRIBUTED clause failure so far *)
-  h_k1hit : bool }.                   (* some clause failed with the signature of K1 *)
+  h_mismatch : bool; h_holds : bool }.
 
 Definition h_init : hstate :=
-  {| h_last := None; h_revoked := []; h_signed_out := []; h_k1 := []; h_mismatch := false; h_holds := true; h_k1hit := false |}.
+  {| h_last := None; h_revoked := []; h_signed_out := []; h_mismatch := false; h_holds := true |}.
 
 Definition cleared_grant (q : areq) (clears : bool) : list (str * str) :=
   match session_of q with Some s => if clears then [grant_of s] else [] | None => [] end.
@@ -316,44 +300,33 @@ Definition cleared_grant (q : areq) (clears : bool) : list (str * str) :=
 Definition h_step (mac : str -> str -> str) (h : hstate) (s : step) : hstate :=
   match s with
   | SProxy o =>
-      {| h_last := Some o; h_revoked := h_revoked h; h_signed_out := h_signed_out h; h_k1 := h_k1 h;
-         h_mismatch := h_mismatch h || proxy_mismatch mac o; h_holds := h_holds h && proxy_holds mac o;
-         h_k1hit := h_k1hit h |}
+      {| h_last := Some o; h_revoked := h_revoked h; h_signed_out := h_signed_out h;
+         h_mismatch := h_mismatch h || proxy_mismatch mac o; h_holds := h_holds h && proxy_holds mac o |}
   | SAuth o =>
       (* tokens that reached the IdP's revoke endpoint and were answered "revoked" / "already revoked" *)
       let newly := if revoke_ok (ao_provider o) (q_idp (ao_req o)) then r_revoked (ao_resp o) else [] in
       {| h_last := h_last h; h_revoked := newly ++ h_revoked h;
-         h_signed_out := cleared_grant (ao_req o) (r_clears (ao_resp o)) ++ h_signed_out h; h_k1 := h_k1 h;
+         h_signed_out := cleared_grant (ao_req o) (r_clears (ao_resp o)) ++ h_signed_out h;
          h_mismatch := h_mismatch h || auth_mismatch mac o;
-         h_holds := h_holds h && auth_holds mac o && acceptance_holds mac (h_last h) o;
-         h_k1hit := h_k1hit h |}
+         h_holds := h_holds h && auth_holds mac o && acceptance_holds mac (h_last h) o |}
   | SConc o =>
       let p := co_provider o in
-      let vs := conc_verdicts mac o [] (co_reqs o) (co_bodies o) in
-      let tagged := combine (combine (co_reqs o) (co_bodies o)) vs in
       let newly := flat_map (fun q => match session_of q with
                                       | Some s0 => if mem_str (revoke_token p s0) (co_calls o) && revoke_ok p (q_idp q)
                                                    then [revoke_token p s0] else []
                                       | None => [] end) (co_reqs o) in
       {| h_last := h_last h; h_revoked := newly ++ h_revoked h;
-         h_signed_out := flat_map (fun t => cleared_grant (fst (fst t)) (snd (snd (fst t)))) tagged ++ h_signed_out h;
-         h_k1 := flat_map (fun t => if snd t =? 1 then cleared_grant (fst (fst t)) (snd (snd (fst t))) else []) tagged ++ h_k1 h;
-         h_mismatch := h_mismatch h || conc_mismatch mac o ||
-                       negb (Nat.eqb (List.length (co_reqs o)) (List.length (co_bodies o)));
-         h_holds := h_holds h && forallb (fun v => negb (v =? 2)) vs;
-         h_k1hit := h_k1hit h || existsb (fun v => v =? 1) vs |}
+         h_signed_out := flat_map (fun t => cleared_grant (fst t) (snd (snd t))) (combine (co_reqs o) (co_bodies o)) ++ h_signed_out h;
+         h_mismatch := h_mismatch h || conc_mismatch mac o;
+         h_holds := h_holds h && conc_holds mac o |}
   | SSig secret uri sg ts parses now obs =>
-      {| h_last := h_last h; h_revoked := h_revoked h; h_signed_out := h_signed_out h; h_k1 := h_k1 h;
+      {| h_last := h_last h; h_revoked := h_revoked h; h_signed_out := h_signed_out h;
          h_mismatch := h_mismatch h || negb (bool_eqb (valid_signature mac secret uri sg ts parses now) obs);
-         h_holds := h_holds h; h_k1hit := h_k1hit h |}
+         h_holds := h_holds h |}
   | SReuse o =>
-      let g := (s_access (ro_session o), s_refresh_tok (ro_session o)) in
-      let so_ok := reuse_signed_out_holds (h_signed_out h) o in
-      let k1 := negb so_ok && mem_grant g (h_k1 h) in
-      {| h_last := h_last h; h_revoked := h_revoked h; h_signed_out := h_signed_out h; h_k1 := h_k1 h;
+      {| h_last := h_last h; h_revoked := h_revoked h; h_signed_out := h_signed_out h;
          h_mismatch := h_mismatch h || reuse_mismatch o || negb (reuse_world_ok (h_revoked h) o);
-         h_holds := h_holds h && reuse_holds (h_revoked h) o && (so_ok || k1);
-         h_k1hit := h_k1hit h || k1 |}
+         h_holds := h_holds h && reuse_holds (h_revoked h) o && reuse_signed_out_holds (h_signed_out h) o |}
   end.
 
 Definition h_run (mac : str -> str -> str) (steps : list step) : hstate := fold_left (h_step mac) steps h_init.
@@ -361,8 +334,7 @@ Definition h_run (mac : str -> str -> str) (steps : list step) : hstate := fold_
 Definition judge (c : case) : N :=
   match c with
   | CH tab steps =>
-      let h := h_run (mac_of tab) steps in
-      code (h_mismatch h) (h_holds h && negb (h_k1hit h)) (if h_holds h && h_k1hit h then 1 else 0)
+      let h := h_run (mac_of tab) steps in code (h_mismatch h) (h_holds h) 0
   end.
 
 (* class = which kinds of events the history contains (bit mask) *)
